@@ -18,7 +18,14 @@ SYSCALLS = ("network,open,openat,openat2,creat,rename,renameat,renameat2,unlink,
 
 TEXTS = [("doc1.txt", "plaintext", "This is teh first zzyzxq document, wich has errors."),
          ("doc2.md", "markdown", "# Title\n\nSome *markdown* with an mistake and qwertzuv.\n"),
-         ("doc3.rs", "rust", "// A comment with teh typo.\nfn main() {}\n")]
+         ("doc3.rs", "rust", "// A comment with teh typo.\nfn main() {}\n"),
+         # texts that name hosts, addresses and files: nothing in them may be looked up, fetched or opened
+         ("doc4.md", "markdown", "See https://nightjar-internal.example.com/path?q=teh and http://example.org:8080/x or "
+          "ftp://files.example.net/a.txt today.\n\nMail bob@corp.example.com or visit www.example.com.\n\n"
+          "[the guide](https://docs.example.com/guide \"a title\") and <https://auto.example.io> and ![img](http://img.example.com/a.png)\n"),
+         ("doc5.txt", "plaintext", "Connect to ws://socket.example.com or wss://secure.example.com:443/ws, read file:///etc/hostname "
+          "and /etc/passwd, ssh 192.168.1.10:22, localhost:3000, \\\\fileserver\\share, mailto:alice@example.com, teh end.\n"),
+         ("doc6.py", "python", "# Fetch https://api.example.com/v1/users?id=1 and see teh docs at http://docs.example.com\nx = 1\n")]
 
 
 def classify(path, pol):
